@@ -198,7 +198,30 @@ func c02Pipeline(ctx *Ctx, r *Rng) {
 		old := string(c.files[target])
 		faultLine := strings.Count(old, "\n") + 1
 		var fault string
-		if late {
+		chain := late && r.Chance(1, 2)
+		if chain {
+			// a fault INSIDE the body of a user type that is reached through a chain of usages @k0 -> @k1 -> … :
+			// the types in a random declaration order, the fault (a rule the schema language does not have, or an
+			// example that violates its own constraint) on a line of its own in the deepest type
+			depth := 1 + r.Intn(3)
+			var decls []string
+			for d := 0; d <= depth; d++ {
+				if d < depth {
+					decls = append(decls, fmt.Sprintf("TYPE @k%d_%d\n{\"next\": @k%d_%d}\n", i, d, i, d+1))
+				} else {
+					bad := []string{"\"id\": 1 // {type2: \"any\"}", "\"id\": 1 // {min: 5}"}[r.Intn(2)]
+					decls = append(decls, fmt.Sprintf("TYPE @k%d_%d\n{\n  \"someLongPropertyName\": \"some long value, to be well past the other bodies\",\n  %s\n}\n", i, d, bad))
+				}
+			}
+			perm := r.Perm(len(decls))
+			for _, k := range perm {
+				if k == depth {
+					faultLine += strings.Count(fault, "\n") + 3 // the line of the faulty property
+				}
+				fault += decls[k]
+			}
+			ctx.Cov.Hit(fmt.Sprintf("fault inside a type used through a chain of %d", depth))
+		} else if late {
 			fault = fmt.Sprintf("TYPE @dup%d\n{}\nTYPE @dup%d\n{}\n", i, i)
 			faultLine += 2 // the second TYPE is the offending directive
 		} else {
